@@ -839,6 +839,14 @@ class _Activation:
             for o in recv:
                 out |= self.oa.heap.get(o, "result")
             return out
+        from .build import INPLACE_KW_METHODS
+        if name in INPLACE_KW_METHODS:
+            flag = next((k.value for k in getattr(e, "keywords", []) if k.arg == INPLACE_KW_METHODS[name]), None)
+            if flag is None and getattr(e, "args", None):
+                flag = e.args[0]
+            if flag is not None and not (isinstance(flag, ast.Constant) and flag.value in (False, 0, None)):
+                self.oa.record(self.fi, e, recv, "method:" + name + "(" + INPLACE_KW_METHODS[name] + ")", self.ctx)
+                return set(recv)
         if name in ALL_MUTATOR_METHODS:
             self.oa.record(self.fi, e, recv, "method:" + name, self.ctx)
             if name in ("append", "add", "insert", "extend", "update", "setdefault"):
